@@ -93,8 +93,8 @@ func runScript(sim *simrt.Sim, w http.ResponseWriter, req *http.Request) {
 			}
 			sc.gotHijack = false
 		}
-		w.WriteHeader(http.StatusNotImplemented)
-		return
+		// the connection cannot be taken over: answer like an upgrader does, with an ordinary response
+		w.Header().Set("X-Upgrade", "refused")
 	}
 	for _, h := range sc.headers {
 		w.Header().Add(h[0], h[1])
@@ -233,6 +233,16 @@ func c20prop(r *simkit.Run) {
 	}
 	top := h
 
+	writerKind := rapid.SampledFrom([]string{"hijackable", "hijackable", "hijack-refused", "plain"}).Draw(rt, "client-writer")
+	clientWriter := func(rec *simkit.Recorder) http.ResponseWriter {
+		switch writerKind {
+		case "hijack-refused":
+			rec.RefuseHijack = true
+		case "plain":
+			return simkit.Plain{R: rec}
+		}
+		return rec
+	}
 	send := func(sc *script, src string, body []byte, method string) (*simkit.Recorder, *simrt.Task, *any) {
 		rec := simkit.NewRecorder()
 		req := &http.Request{Method: method, URL: &url.URL{Scheme: "http", Host: "client", Path: "/x"}, Proto: "HTTP/1.1", ProtoMajor: 1, ProtoMinor: 1,
@@ -246,7 +256,7 @@ func c20prop(r *simkit.Run) {
 					panic(p)
 				}
 			}()
-			top.ServeHTTP(rec, req)
+			top.ServeHTTP(clientWriter(rec), req)
 		})
 		sim.RunTask(t)
 		return rec, t, &pv
@@ -348,12 +358,12 @@ func c20prop(r *simkit.Run) {
 	bare := simkit.NewRecorder()
 	{
 		req := (&http.Request{Method: method, URL: &url.URL{Path: "/x"}, Header: http.Header{}, Body: io.NopCloser(bytes.NewReader(reqBody))}).WithContext(context.WithValue(context.Background(), ctxKey{}, &bareScript))
-		runScript(nil, bare, req)
+		runScript(nil, clientWriter(bare), req)
 	}
 
 	sim.NoteStr("stack", strings.Join(names, ","))
 	sim.Note("intervene", int64(intervene), int64(probe.status), int64(len(reqBody)))
-	sim.NoteStr("probe", fmt.Sprint(probe.headers, probe.chunks, probe.flush, probe.hijack, probe.early, method))
+	sim.NoteStr("probe", fmt.Sprint(probe.headers, probe.chunks, probe.flush, probe.hijack, probe.early, method, writerKind))
 	rec, task, _ := send(probe, "probe-src", reqBody, method)
 	failIf(task, "probe request")
 	if !task.Done() {
@@ -379,7 +389,7 @@ func c20prop(r *simkit.Run) {
 		if !bytes.Equal(probe.sawBody, reqBody) {
 			r.Fail("request-body", "the handler read %q, the client sent %q %s", probe.sawBody, reqBody, ctxt())
 		}
-		if probe.hijack {
+		if probe.hijack && writerKind == "hijackable" {
 			if !probe.gotHijack || !rec.Hijacked || rec.HijackBuf.String() != bare.HijackBuf.String() {
 				r.Fail("hijack", "connection hijacking not available to the handler or not reaching the client (handler got hijacker=%v, client hijacked=%v, bytes %q) %s", probe.gotHijack, rec.Hijacked, rec.HijackBuf.String(), ctxt())
 			}
